@@ -16,6 +16,16 @@ def main():
     import pendulum._pendulum as RS
     import pendulum.helpers as HLP
 
+    try:
+        out = compute(task, pendulum, PY, RS, HLP)
+    except Exception:      # the library raised: exit code 3 tells the parent it was not the harness
+        import traceback
+        traceback.print_exc()
+        sys.exit(3)
+    json.dump(out, sys.stdout)
+
+
+def compute(task, pendulum, PY, RS, HLP):
     out = {"tzname": list(time.tzname), "utc_offset_2000": time.localtime(946684800).tm_gmtoff, "local_time": [], "years": [], "getters": []}
     for t, off, us in task["cases"]:
         out["local_time"].append([list(m.local_time(t, off, us)) for m in (PY, RS, HLP)])
@@ -23,7 +33,7 @@ def main():
         out["getters"].append([d.year, d.month, d.day, d.hour, d.minute, d.second, d.day_of_week, d.day_of_year, d.week_of_year, d.days_in_month, d.quarter])
     for y in task["years"]:
         out["years"].append([[bool(m.is_leap(y)), bool(m.is_long_year(y)), int(m.days_in_year(y)), int(m.week_day(y, 3, 1))] for m in (PY, RS, HLP)])
-    json.dump(out, sys.stdout)
+    return out
 
 
 if __name__ == "__main__":
